@@ -1207,6 +1207,9 @@ mod convert {
         /// `DW_LNE_set_address` discards any advance since the last row, but `from_row`
         /// keeps accumulating, so this is updated for each `DW_LNE_set_address`.
         offset_adjust: u64,
+        /// True if a row has been returned for the current sequence, so that the
+        /// sequence must be ended even if it is moved to a tombstone address.
+        in_sequence: bool,
     }
 
     impl<'a, R: Reader + 'a> ConvertLineProgram<'a, R> {
@@ -1333,6 +1336,7 @@ mod convert {
                 state: ConvertLineState::ReadRow,
                 last_row_offset: 0,
                 offset_adjust: 0,
+                in_sequence: false,
             })
         }
 
@@ -1412,6 +1416,7 @@ mod convert {
                 }
             }
             let mut tombstone = false;
+            let mut tombstone_offset = 0;
             self.address = None;
             self.from_row.reset(self.from_program.header());
             while let Some(instruction) = self
@@ -1424,6 +1429,8 @@ mod convert {
                         // start of the sequence. (Setting a lower address would make the row
                         // treat it as a tombstone and ignore the following advances.)
                         let offset = self.from_row.address();
+                        // The offset of the last valid address, in case this is a tombstone.
+                        let end_offset = self.address_offset();
                         self.from_row.execute(
                             read::LineInstruction::SetAddress(offset),
                             &mut self.from_program,
@@ -1434,9 +1441,12 @@ mod convert {
                         // Handle tombstones the same way that `from_row.execute` would have.
                         let tombstone_address =
                             !0 >> (64 - self.from_program.header().encoding().address_size * 8);
-                        tombstone = val == tombstone_address;
-                        if !tombstone {
+                        if val != tombstone_address {
+                            tombstone = false;
                             self.address = Some(val);
+                        } else if !tombstone {
+                            tombstone = true;
+                            tombstone_offset = end_offset;
                         }
                         continue;
                     }
@@ -1465,6 +1475,17 @@ mod convert {
                     if self.from_row.end_sequence() {
                         tombstone = false;
                         self.address = None;
+                        if self.in_sequence {
+                            // Rows of this sequence were returned before the tombstone
+                            // address was set, so the sequence still needs to be ended
+                            // (at the last valid address). Otherwise the rows of the next
+                            // sequence would continue this one.
+                            self.in_sequence = false;
+                            self.last_row_offset = 0;
+                            self.offset_adjust = 0;
+                            self.check_address_offset(tombstone_offset)?;
+                            return Ok(Some(ConvertLineRow::EndSequence(tombstone_offset)));
+                        }
                     }
                     self.from_row.reset(self.from_program.header());
                     continue;
@@ -1500,6 +1521,7 @@ mod convert {
         /// Also resets the offsets for the next sequence.
         fn end_sequence_offset(&mut self) -> ConvertResult<u64> {
             let offset = self.address_offset();
+            self.in_sequence = false;
             self.last_row_offset = 0;
             self.offset_adjust = 0;
             self.check_address_offset(offset)?;
@@ -1509,6 +1531,7 @@ mod convert {
         fn convert_row(&mut self) -> ConvertResult<LineRow> {
             let address_offset = self.address_offset();
             self.check_address_offset(address_offset)?;
+            self.in_sequence = true;
             self.last_row_offset = address_offset;
             Ok(LineRow {
                 address_offset,
